@@ -333,6 +333,31 @@ CHECKS = {
          "degree >= 4). Open finding F10a: long chains of touching rings are silently rejected (find_candidates max_depth 20).",
     technique="TLA+ declarative spec + TLC design check; TLC-exported cases run on the real Assembler; observed rings validated "
               "by TLC against the spec's oracle (trace validation), invariance by grouping over segment sets"),
+
+ "C03": dict(
+    category="fault_enumeration",
+    text="specs/FaultModel.tla: a catalogue of the structural positions of PBF (BlobHeader length/fields, Blob raw/zlib_data/raw_size, "
+         "HeaderBlock, string table, groups, dense arrays, keys_vals, Info), o5m (magic, dataset type/length, delta fields, string pairs, "
+         "table references, reference-section lengths, table wrap-around), OPL (lines, fields) and XML (attributes, document level), each "
+         "of a kind that determines the injectable faults; TLC enumerates base file x fault x position exhaustively, every truncation "
+         "before/in the length/inside/after every position (file level and inside the blob content), every prefix, and seeded walks "
+         "with 2 faults (+ truncation). specs/FaultModelXml.tla: the XML handler as an implementation-shaped machine (context stack, "
+         "open object, the four sub-builders, pending comment, read_types guards) driven by every element sequence over 18 elements "
+         "within the bound; TLC checks 'whatever is committed is a well-formed item', builder discipline and the handler's "
+         "assert()s, rejects the as-shipped handler (Fixed=FALSE) and exports every terminal history with the expected outcome and "
+         "object shapes. tools/fault_enc.py materialises every description; harness/fault_replay.cpp reads it with the real Reader "
+         "(plain/gzip/bzip2, memory/file, entity-type subsets, no-metadata) in an NDEBUG and an assertions-enabled ASan+UBSan build: "
+         "terminates (watchdog), data or std::exception, every delivered item passes a bounds-checking walker and a full natural "
+         "traversal, no thread/fd left, bounded heap and output, XML outcome and shapes equal the spec's.",
+    design_ref="DESIGN.md section 4, C03; section 5",
+    note="Structure-aware fault enumeration, NOT arbitrary byte strings and no coverage guidance. Full XML vocabulary exhaustive to "
+         "3 (quick) / 4 (thorough) elements, sub-vocabularies to 5, length 6 only model-checked + a 30000 sample; XML attribute "
+         "faults one per file in a minimal context; multi-fault files are seeded random walks (<= 2 faults); thorough alternates the "
+         "4-element XML histories between the two builds. Memory bound is coarse (64 x raw input + 96 MiB, allocations <= 1 GiB); "
+         "hang = 60 s (+240 s confirmation). expat/zlib/libbz2/protozero as installed. The walker reads private size fields "
+         "(-fno-access-control). Entity-type subsets have no expected outcome.",
+    technique="TLA+ structure/fault catalogue + implementation-shaped XML handler model checked by TLC; TLC-exported faulty files and "
+              "handler histories replayed on the real Reader under ASan+UBSan with a bounds-checking item walker as oracle"),
 }
 
 NOT_APPLICABLE = {
